@@ -15,6 +15,7 @@ structure S where
   cmAddr : String := ""
   model : St := {}
   started : Bool := false
+  prevLocks : List Lockup := []     -- lock-ups observed at the end of the previous block
   deriving Inhabited
 
 def isShareDenom (d : String) : Bool := d.startsWith "amm/pool/" || d == "stablestake/share"
@@ -82,7 +83,7 @@ def handle (prop : String) (s : S) (i : Nat) (j : Json) : S × List Json :=
     let unc0 : FMap String := (denomsOf st0).filterMap fun d =>
       let dev := st0.total.get d - sumCommitted st0 d
       if dev != 0 then some (d, dev / 2) else none
-    ({ names := names, cmAddr := cm, model := { st0 with unc := unc0 }, started := true }, [verdictOk i])
+    ({ names := names, cmAddr := cm, model := { st0 with unc := unc0 }, started := true, prevLocks := o.lockups }, [verdictOk i])
   | some "hist.step" =>
     if !s.started then (s, [verdictBad i "hist.step before hist.begin"]) else
     let st := parseStep j
@@ -151,6 +152,20 @@ def handle (prop : String) (s : S) (i : Nat) (j : Json) : S × List Json :=
        | none => []) ++
       (match og.committed.find? (fun p => p.2 < 0) with
        | some p => [verdictViol i "C12.no_overdraw" (Json.mkObj [("addr", p.1.1), ("denom", p.1.2), ("committed", mkInt p.2)])]
+       | none => []) ++
+      -- a lock that has not expired at this block's time is still there, unless a LIQUIDATION took the tokens: the account's shares
+      -- left it in begin-block (the sweep) or in a third party's close-positions message - never in a message of its own owner
+      (let now := st.obs.time
+       let due (ls : List Lockup) (a d : String) : Int := (ls.filter (fun l => l.addr == a && l.denom == d && l.unlock > now)).foldl (fun x l => x + l.amount) 0
+       let keys := (s.prevLocks.filter (fun l => l.unlock > now)).map (fun l => (l.addr, l.denom)) |>.eraseDups
+       let touchedBy (ms : List Move) (a : String) : Bool := ms.any (fun m => m.src == a || m.dst == a)
+       let liquidated (a : String) : Bool :=
+         touchedBy st.beginMoves a || touchedBy st.endMoves a ||
+         st.txs.any (fun t => (t.kind == "lp.closePositions" || t.kind == "perp.closePositions") && touchedBy t.moves a)
+       match keys.find? (fun k => due st.obs.lockups k.1 k.2 < due s.prevLocks k.1 k.2 && !liquidated k.1) with
+       | some k => [verdictViol i "C12.lock_kept" (Json.mkObj [("addr", k.1), ("denom", k.2), ("lockedBefore", mkInt (due s.prevLocks k.1 k.2)),
+                      ("lockedNow", mkInt (due st.obs.lockups k.1 k.2)), ("time", mkInt now),
+                      ("txs", Json.arr ((st.txs.filter (fun t => touchedBy t.moves k.1)).map (fun t => Json.str t.kind)).toArray)])]
        | none => [])
     let viols02 : List Json :=
       (match (ds.filter (fun d => d.startsWith "amm/pool/")).find? (fun d => !sharesB og d) with
@@ -160,7 +175,7 @@ def handle (prop : String) (s : S) (i : Nat) (j : Json) : S × List Json :=
     let viols := if prop == "C02" then viols02 else viols12
     let vs := diffs ++ viols
     -- resync the model to the observation (ghosts kept) so that one disagreement is reported once
-    ({ s with model := og }, if vs.isEmpty then [verdictOk i] else vs)
+    ({ s with model := og, prevLocks := st.obs.lockups }, if vs.isEmpty then [verdictOk i] else vs)
   | some "stats" => (s, [])
   | some t =>
     if t.startsWith "c12l." then
